@@ -218,6 +218,14 @@ def install():
                             return r
                         return w
                     setattr(cls, meth, mk(vars(cls)[meth], meth))
+        from mpire import progress_bar as pb_mod
+        orig_h = pb_mod.ProgressBarHandler._progress_bar_handler
+
+        @functools.wraps(orig_h)
+        def handler(self, *a, **kw):
+            log_event('bar_start')
+            return orig_h(self, *a, **kw)
+        pb_mod.ProgressBarHandler._progress_bar_handler = handler
     except Exception as e:       # instrumentation must never break the library
         log_event('hook_error', what=repr(e))
     if any(r.get('method') == 'is_worker_alive' for r in _PLAN):
